@@ -43,6 +43,10 @@ def r1_acceptance(ctx):
         popsym = Sym("populations", {sf: Sym("stack")})
         table = {"mahf::state::State::populations_mut": popsym, "mahf::state::State::populations": popsym, "mahf::state::State::random_mut": Sym("rng"),
                  "rand::rng::Rng::gen": r,
+                 # the history behind the scenario: an earlier uphill move was accepted, so the best individual found so far
+                 # (3.0) is better than the current solution (5.0); the rule compares against the CURRENT solution
+                 "mahf::state::State::best_objective_value": some(Agg("adt", SO, "SingleObjective", [3.0])),
+                 "mahf::state::State::best_individual": some(indiv("best", 3.0)),
                  "mahf::state::registry::StateRegistry::get_value": lambda interp, env, f, args, T=T: T if (f.get("gargs") or [""])[0] == TEMP else TOP}
         it = install(Interp(fn.body, chain(mk_oracle(table), StackModel(sf), coll_oracle, std_oracle), [Sym("self"), Sym("problem"), Sym("state")], facts=F,
                             inline=lambda k: k.startswith(POP + "::") or c07.INLINE(k), max_visits=8, max_paths=300))
